@@ -303,6 +303,8 @@ def bounds_check(scn, x, ref, out, S):
     kind, p = scn["kind"], scn["kwargs"].get("period")
     if kind not in ("SMA", "EMA", "RMA", "WMA", "VWMA"):
         return None
+    if kind == "EMA" and scn["kwargs"].get("smoothing", 2.0) > p + 1:
+        return None   # a weight above 1 is an extrapolation, not an average: the recurrence is still checked, the enclosure does not apply
     start = next((i for i, a in enumerate(x) if a is not None), None)
     for t, o in enumerate(out):
         if not R.is_num(o) or not isinstance(ref[t], V) or ref[t].e == INF:
@@ -596,7 +598,7 @@ def gen_scn(rng, idx, prop, params):
     if kind in ("SMA", "EMA", "RMA", "WMA", "HMA"):
         kw.update(period=p, input_value=field)
         if kind == "EMA" and rng.random() < 0.3:
-            kw["smoothing"] = rng.choice([1.0, 1.5, 2.5, 3.0])
+            kw["smoothing"] = rng.choice([1.0, 1.5, 2.5, 3.0, 4.0, 5.0])   # with period 2 / 3 the weight exceeds 1: still the documented recurrence
         r = rng.random()
         mode = "field" if r < 0.35 else ("prefilled" if r < 0.7 else ("chain-list" if r < 0.85 else "chain-hexital"))
         if mode.startswith("chain"):
